@@ -47,7 +47,11 @@ Definition check_case (c : case) : bool :=
 
 (* discovery *)
 Record dobs := mkDObs { d_topic : Z; d_part : Z; d_stats : list (option Z) (* min off, max off, min ts, max ts *) }.
-Record dcase := mkDCase { dk_raw : list raw_segment; dk_obs : list dobs }.
+Record dcase := mkDCase {
+  dk_raw : list raw_segment;          (* completed segments in listing order; footer = None when the time index is off *)
+  dk_cache : bool; dk_max_entries : Z;
+  dk_calls : list (bool * list dobs)  (* per ListCompleted call: TTL expired before the call?, what it returned *)
+}.
 
 Definition dobs_of (sg : segment) : dobs :=
   mkDObs (g_topic sg) (g_part sg) [g_min_off sg; g_max_off sg; g_min_ts sg; g_max_ts sg].
@@ -56,4 +60,6 @@ Definition dobs_eqb (a b : dobs) : bool :=
   (d_topic a =? d_topic b) && (d_part a =? d_part b) && list_eqb (opt_eqb Z.eqb) (d_stats a) (d_stats b).
 
 Definition check_dcase (c : dcase) : bool :=
-  list_eqb dobs_eqb (map dobs_of (discover (dk_raw c))) (dk_obs c).
+  list_eqb (list_eqb dobs_eqb)
+    (map (map dobs_of) (cache_calls (dk_cache c) (dk_max_entries c) None (discover (dk_raw c)) (map fst (dk_calls c))))
+    (map snd (dk_calls c)).
